@@ -301,16 +301,6 @@ def inEmitFragment (i : E2EIn) : Bool :=
     | none => false
     | some b => fragDce b
 
-/-- REPORT ONLY: would the compiled file be inside the DCE contract if a dead field projection
-    `e.f` with `e` of non-pointer static type counted as unable to fail (`inertSyn true`: true of
-    typed Go, where a struct value is never nil; not provable in the untyped `Go.Sem`)? -/
-def fragDceStatic (b : BackStages) : Bool :=
-  b.pre.funcs.all (fun f =>
-    !(f.params.map (·.1)).contains "_" &&
-    (Dce.scopeErrs (Dce.localsOf f) (f.params.map (·.1)) f.body).isEmpty &&
-    Dce.shapeOK f.body && Dce.semOK (Dce.inertSyn true) f.body []) &&
-  decide ((b.pre.funcs.map (·.name)).Nodup)
-
 /-- which functions of the compiled file are outside the DCE contract (reports only) -/
 def dceReasons (i : E2EIn) : List String :=
   match backStages i with
